@@ -255,6 +255,16 @@ def _fix_single_qubit_gates_around_kak_interaction(
         desired kak decomposition.
     """
     actual = linalg.kak_decomposition(circuits.Circuit(operations).unitary(qubit_order=qubits))
+    if (
+        desired.interaction_coefficients[2] * actual.interaction_coefficients[2] < 0
+        and abs(desired.interaction_coefficients[0] - np.pi / 4) < 1e-6
+        and abs(actual.interaction_coefficients[0] - np.pi / 4) < 1e-6
+    ):
+        # On the x = π/4 face of the Weyl chamber (x, y, z) and (π/2 - x, y, -z) are the same
+        # interaction up to single qubit operations, and the canonical form picks z >= 0 only
+        # when x is within a tolerance of π/4: give both the same representative.
+        desired = _with_non_negative_z(desired)
+        actual = _with_non_negative_z(actual)
 
     def dag(a: np.ndarray) -> np.ndarray:
         return np.transpose(np.conjugate(a))
@@ -272,3 +282,22 @@ def _fix_single_qubit_gates_around_kak_interaction(
         )
         yield g(qubits[k])
     yield ops.global_phase_operation(desired.global_phase / actual.global_phase)
+
+
+def _with_non_negative_z(kak: cirq.KakDecomposition) -> cirq.KakDecomposition:
+    """Rewrites a decomposition (x, y, z < 0) as the equivalent one with (π/2 - x, y, -z)."""
+    flip = linalg.kak_canonicalize_vector(*kak.interaction_coefficients, atol=np.inf)
+    b1, b0 = kak.single_qubit_operations_before
+    a1, a0 = kak.single_qubit_operations_after
+    return linalg.KakDecomposition(
+        interaction_coefficients=flip.interaction_coefficients,
+        global_phase=kak.global_phase * flip.global_phase,
+        single_qubit_operations_before=(
+            flip.single_qubit_operations_before[0] @ b1,
+            flip.single_qubit_operations_before[1] @ b0,
+        ),
+        single_qubit_operations_after=(
+            a1 @ flip.single_qubit_operations_after[0],
+            a0 @ flip.single_qubit_operations_after[1],
+        ),
+    )
